@@ -1,1 +1,60 @@
-From Verif Require Import Base.Harness Model.Ledger.
+(* C02 — No accepted transaction sequence can make block processing fail.
+   Partial by construction (DESIGN section 10): totality is proved for the modelled error sites of
+   the Layer modules under invariants that accepted transactions maintain; the SDK keepers
+   underneath are exercised by the history driver, not modelled. *)
+From Coq Require Import ZArith List String.
+From Verif Require Import Base.Harness Model.OracleAgg Model.Halt Model.Escrow Model.Ledger
+     Proofs.HaltProofs Proofs.EscrowProofs Proofs.OracleAggProofs.
+Import ListNotations.
+Open Scope Z_scope.
+
+(* every value the message handler stores is parsed by the aggregation code *)
+Theorem C02_stored_values_parse v s : submit_value_stored true v = Some s -> parse16 s <> None.
+Proof. exact (stored_values_parse v s). Qed.
+Print Assumptions C02_stored_values_parse.
+
+Theorem C02_median_never_fails rs :
+  Forall (fun r => exists v, submit_value_stored true v = Some (r_value r)) rs -> weighted_median rs <> None.
+Proof. exact (median_total_on_stored rs). Qed.
+Print Assumptions C02_median_never_fails.
+
+Theorem C02_stored_prefix_refuted : exists v s, submit_value_stored false v = Some s /\ parse16 s = None.
+Proof. exact stored_prefix_refuted. Qed.
+Print Assumptions C02_stored_prefix_refuted.
+
+(* the cycle-list sequencer stays inside the list along every history of rotations and
+   governance replacements *)
+Theorem C02_cycle_index_in_range ops c : current_query_ok c = true ->
+  current_query_ok (fold_left (cystep true) ops c) = true.
+Proof. exact (cycle_index_in_range ops c). Qed.
+Print Assumptions C02_cycle_index_in_range.
+
+Theorem C02_cycle_shrink_refuted : exists c ops, current_query_ok c = true /\
+  current_query_ok (fold_left (cystep false) ops c) = false.
+Proof. exact cycle_shrink_refuted. Qed.
+Print Assumptions C02_cycle_shrink_refuted.
+
+(* the mint begin blocker never hands the bank an output without coins *)
+Theorem C02_mint_outputs_valid p : 0 < p -> outputs_valid (mint_outputs true p) = true.
+Proof. exact (mint_outputs_valid p). Qed.
+Print Assumptions C02_mint_outputs_valid.
+
+Theorem C02_mint_small_provision_refuted : exists p, 0 < p /\ outputs_valid (mint_outputs false p) = false.
+Proof. exact mint_small_provision_refuted. Qed.
+Print Assumptions C02_mint_small_provision_refuted.
+
+(* pool moves of dispute execution keep both staking pools above their ledgers, so later
+   bonding-status changes (which move a validator's tokens between the pools) find the coins *)
+Theorem C02_pools_cover_ledger ops s : pinv s -> pinv (fold_left pstep_total ops s).
+Proof. exact (prun_inv ops s). Qed.
+Print Assumptions C02_pools_cover_ledger.
+
+Theorem C02_return_to_unbonded_refuted :
+  exists s amount, pinv s /\ 0 < amount <= p_dispute s /\ ~ pinv (pstep_return_as_found s amount).
+Proof. exact return_as_found_refuted. Qed.
+Print Assumptions C02_return_to_unbonded_refuted.
+
+(* weighted mode is total on non-empty report lists *)
+Theorem C02_mode_never_fails r rs : weighted_mode_exec (r :: rs) <> None.
+Proof. unfold weighted_mode_exec, weighted_mode. destruct (mode_reporter _ _ _ _) as [[? ?] ?]. discriminate. Qed.
+Print Assumptions C02_mode_never_fails.
